@@ -603,6 +603,10 @@ FIND_PACKET:
 			}
 		}
 	}
+	// the packet data, its padding, and the trailing block length must fit into the remainder of the block
+	if (uint64(r.ci.CaptureLength)+3)&^3+4 > uint64(r.currentBlock.length) {
+		return fmt.Errorf("Capture length %d exceeds remaining block length %d", r.ci.CaptureLength, r.currentBlock.length)
+	}
 	if !r.options.WantMixedLinkType {
 		if r.ifaces[r.ci.InterfaceIndex].LinkType != r.linkType {
 			if err := r.discard(int(r.currentBlock.length)); err != nil {
